@@ -253,6 +253,56 @@ def r05g(F):
 	want = {'funding_spend_seen', 'lockdown_from_offchain', 'holder_tx_signed'}
 	ok = want <= read
 	out.append(Result('05.g', ok, ('ok:' if ok else 'shape:') + 'no_further_updates_allowed', 'no_further_updates_allowed reads %s (needs %s)' % (sorted(read), sorted(want)), len(read), where=F.where(nf.name)))
+	# ... and it IS a disjunction: whenever one of the three flags is set the result is true, whatever else the function looks at
+	try:
+		rows = path_table(nf)
+	except AnchorMissing as e:
+		rows = None
+	if rows is None:
+		out.append(Result('05.g', False, 'anchor:no_further_updates_allowed-table', 'no_further_updates_allowed is no longer a small boolean function', where=F.where(nf.name)))
+	else:
+		import itertools
+		keys = set()
+		for conds, ret in rows:
+			keys |= set(conds)
+			if ret is not None and ret[0] != 'const':
+				keys.add(leaf_key(ret))
+		keys = sorted(keys)
+		def flag_of(k):
+			for w in want:
+				if k.endswith('.' + w) or k == w:
+					return w
+			return None
+		bad = []
+		if len(keys) <= 10:
+			for vals in itertools.product((0, 1), repeat=len(keys)):
+				asg = dict(zip(keys, vals))
+				if not any(asg[k] for k in keys if flag_of(k)):
+					continue
+				res = None
+				for conds, ret in rows:
+					okr = True
+					for k, c in conds.items():
+						v = asg.get(k)
+						if isinstance(c, tuple):
+							if v in c[1]:
+								okr = False
+						elif c != v:
+							okr = False
+					if okr:
+						if ret is None:
+							res = None
+						elif ret[0] == 'const':
+							res = bool(ret[1])
+						else:
+							res = bool(asg.get(leaf_key(ret)))
+						break
+				if res is not True:
+					bad.append({k.rsplit('.', 1)[-1]: v for k, v in asg.items()})
+		else:
+			bad.append('too many inputs: %s' % keys)
+		okd = not bad and all(any(flag_of(k) == w for k in keys) for w in want)
+		out.append(Result('05.g', okd, ('ok:' if okd else 'weakened:') + 'no_further_updates_allowed-is-disjunction', 'no_further_updates_allowed is true whenever funding_spend_seen, lockdown_from_offchain or holder_tx_signed is set%s' % ('' if okd else ' - not for %s: once the holder commitment has been signed for broadcast the monitor must refuse every later commitment update, otherwise the channel goes on to revoke a state that may be on chain' % bad[:2]), len(rows), where=F.where(nf.name)))
 	return out
 
 def r05i(F):
@@ -316,7 +366,51 @@ def r05k(F):
 		out += P4_fail_blocks(F, '05.k', fu, oks, call_decisions(fu, vf, 'result'), True, 'remote update_fee affordable', key='remote-fee-fail')
 	return out
 
+def r05l(F):
+	"""channel_ready: the peer's commitment points are rotated once. For every value of the AwaitingChannelReady flags in which the peer's
+	channel_ready was already received (with or without WAITING_FOR_BATCH), the handler takes the retransmission path (point compared, nothing
+	stored); decided by evaluating the handler's flag tests over the finite flag domain"""
+	import flagsim
+	out = []
+	fn = FC + 'channel_ready'
+	fu = F.func(fn)
+	SF = 'lightning::ln::channel::state_flags::'
+	OUR, THEIR, WFB = F.const(SF + 'OUR_CHANNEL_READY'), F.const(SF + 'THEIR_CHANNEL_READY'), F.const(SF + 'WAITING_FOR_BATCH')
+	vs = enum_variants(F, CH + 'ChannelState')
+	sws = [x for x in variant_switch_on(fu, r'channel_state$', vs) if 'AwaitingChannelReady' in x[1]]
+	rot = {b for b, si in sites_field_write(fu, 'counterparty_next_commitment_point')} | {b for b, si in sites_field_write(fu, 'counterparty_current_commitment_point')}
+	rot &= fu.reach([0])
+	if len(sws) != 1 or not rot:
+		return [Result('05.l', False, 'anchor:channel_ready-shape', 'channel_ready: expected one match on the channel state with an AwaitingChannelReady arm and the commitment point stores (found %d / %d)' % (len(sws), len(rot)), where=F.where(fn))]
+	sb, m, other = sws[0]
+	start = m['AwaitingChannelReady']
+	def is_input(e):
+		return e[0] == 'field' and e[1][0] == 'downcast' and e[1][2] == 'AwaitingChannelReady'
+	def stop(b):
+		return 'rotates' if b in rot else None
+	domain = [(0, 'none'), (OUR, 'OUR'), (WFB, 'WAITING_FOR_BATCH'), (THEIR, 'THEIR'), (THEIR | WFB, 'THEIR|WAITING_FOR_BATCH')]
+	n = 0
+	for val, label in domain:
+		res = flagsim.simulate(F, fu, start, val, is_input, stop)
+		n += 1
+		if '<explosion>' in res:
+			out.append(Result('05.l', False, 'anchor:simulation@' + label, 'channel_ready: flag simulation did not terminate for %s' % label, where=F.where(fn)))
+			continue
+		if val & THEIR:
+			ok = 'rotates' not in res
+			out.append(Result('05.l', ok, ('ok:' if ok else 'rotated-twice:') + 'repeated-channel_ready@' + label, 'channel_ready with flags {%s}: a repeated channel_ready %s' % (label, 'only compares the point and returns' if ok else 'reaches the stores of counterparty_current/next_commitment_point again: the point announced for the first commitment is overwritten and a later revoke_and_ack is checked against the wrong point'), 1, where=F.where(fn)))
+		else:
+			ok = 'rotates' in res
+			out.append(Result('05.l', ok, ('ok:' if ok else 'dead:') + 'first-channel_ready@' + label, 'channel_ready with flags {%s}: the first channel_ready %s' % (label, 'stores the peer\'s next commitment point' if ok else 'no longer reaches the point stores'), 1, where=F.where(fn)))
+	# the ChannelReady arm is a retransmission as well
+	if 'ChannelReady' in m:
+		res = flagsim.simulate(F, fu, m['ChannelReady'], 0, is_input, stop)
+		ok = 'rotates' not in res
+		out.append(Result('05.l', ok, ('ok:' if ok else 'rotated-twice:') + 'repeated-channel_ready@ChannelReady', 'channel_ready in state ChannelReady never reaches the point stores', 1, where=F.where(fn)))
+	return out
+
 RULES = [
+	('05.l', 'channel_ready rotates the counterparty commitment points exactly once (flag-domain evaluation of the handler)', r05l),
 	('05.a', 'release_commitment_secret is reachable only from get_last_revoke_and_ack, with index next_transaction_number + 2', r05a),
 	('05.b', 'HolderCommitmentPoint::advance only behind a validated commitment_signed', r05b),
 	('05.c', 'commitment numbers are written only as init / minus-one at the frozen sites', r05c),
